@@ -32,8 +32,8 @@ import traceback
 from pathlib import Path
 
 ROOT = Path(__file__).resolve().parent.parent
-EVIDENCE_DIR = ROOT / "evidence"
-REPLAY_DIR = ROOT / "replays"
+EVIDENCE_DIR = Path(os.environ.get("VERIF_EVIDENCE_DIR") or ROOT / "evidence")  # override only for scoring seeded changes
+REPLAY_DIR = Path(os.environ.get("VERIF_REPLAY_DIR") or ROOT / "replays")
 WORK_DIR = ROOT / ".work"
 KNOWN_FILE = ROOT / "known_findings.json"
 NPROC = int(os.environ.get("VERIF_NPROC", "16"))
